@@ -148,7 +148,9 @@ fn $name<C: Ord + Clone + Default + std::fmt::Debug>(case: &BinCase, cls: [C; 2]
     let mut model = match guarded(|| params.fit(&ds)) {
         Ok(Ok(m)) => m,
         Ok(Err(e)) => {
-            viols.push(Violation::new("logistic.fit.unexpected_error", format!("fit on an in-domain two-class dataset returned Err({})", e), cj()));
+            let msg = format!("{}", e);
+            let sig = if is32 && msg.contains("not finite") { "logistic.fit.error_nonfinite_loss.f32" } else { "logistic.fit.unexpected_error" };
+            viols.push(Violation::new(sig, format!("fit on an in-domain two-class dataset returned Err({})", msg), cj()));
             return out;
         }
         Err(p) => {
